@@ -38,6 +38,13 @@ func (s *Scanner) Scan() bool {
 		return false
 	}
 
+	// Only an input with nothing left is a clean end of the stream; an
+	// end of input in the middle of a record is an error (see Err).
+	if err := s.s.Request(1); err == io.EOF {
+		s.err = io.EOF
+		return false
+	}
+
 	if s.p == nil {
 		errs := make([]struct {
 			err error
@@ -78,10 +85,15 @@ func (s Scanner) Value() gts.Sequence {
 	return nil
 }
 
-// Err returns the first non-EOF error that was encountered by the scanner.
+// Err returns the first error that was encountered by the scanner. Reaching
+// the end of the input between records is not an error; reaching it inside a
+// record is.
 func (s Scanner) Err() error {
-	if s.err == nil || dig(s.err) == io.EOF {
+	if s.err == nil || s.err == io.EOF {
 		return nil
+	}
+	if dig(s.err) == io.EOF {
+		return io.ErrUnexpectedEOF
 	}
 	return s.err
 }
